@@ -194,6 +194,29 @@ impl NetWorld {
         } else {
             Vec::new()
         };
+        // a schedule step that names a peer the real endpoint does not have cannot be executed
+        if matches!(a, "accept" | "reject" | "disconnect" | "ignore" | "send" | "flush" | "rewind")
+            && !pre.iter().any(|p| p.0 == act["pid"].as_u64().unwrap_or(u64::MAX) as u32)
+        {
+            out.res = "skipped".into();
+            out.sends = self.collect(&pre);
+            return out;
+        }
+        if matches!(a, "accept" | "reject") && pre.iter().any(|p| p.0 == act["pid"].as_u64().unwrap_or(0) as u32 && p.3["st"] != json!("Unc")) {
+            out.res = "skipped".into();
+            out.sends = self.collect(&pre);
+            return out;
+        }
+        if matches!(a, "send" | "flush") && pre.iter().any(|p| p.0 == act["pid"].as_u64().unwrap_or(0) as u32 && p.3["st"] != json!("Onl")) {
+            out.res = "skipped".into();
+            out.sends = self.collect(&pre);
+            return out;
+        }
+        if a == "disconnect" && pre.iter().any(|p| p.0 == act["pid"].as_u64().unwrap_or(0) as u32 && (p.3["st"] == json!("Unc") || p.3["st"] == json!("Disc"))) {
+            out.res = "skipped".into();
+            out.sends = self.collect(&pre);
+            return out;
+        }
         self.cb.fail_sends = act["fail"].as_bool().unwrap_or(false);
         let net = &mut self.net;
         let cb = &mut self.cb;
